@@ -65,13 +65,23 @@ def main():
     global CHECKS, VERBOSE, ONLY
     root = sys.argv[1]
     keep = "--keep" in sys.argv
+    tag = sys.argv[sys.argv.index("--tag") + 1] if "--tag" in sys.argv else ""
     VERBOSE = "-v" in sys.argv
     if "--checks" in sys.argv:
         CHECKS = sys.argv[sys.argv.index("--checks") + 1].split(",")
     if "--only" in sys.argv:
         ONLY = sys.argv[sys.argv.index("--only") + 1].split(",")
     jobs = []
-    for owner in sorted(os.listdir(root)):
+    if root == "--preserving":
+        pv = os.path.join(VERIF, "selftest", "preserving")
+        for fn in sorted(os.listdir(pv)):
+            if fn.endswith(".diff"):
+                name = fn[: -len(".diff")].split("__", 1)[1]
+                owner, _, rk = name.rpartition("-")
+                if not ONLY or name in ONLY or owner in ONLY:
+                    jobs.append((owner, rk, os.path.join(pv, fn)))
+        keep = False
+    for owner in sorted(os.listdir(root)) if root != "--preserving" else []:
         out = os.path.join(root, owner, "_out")
         if not os.path.isdir(out):
             continue
@@ -97,10 +107,10 @@ def main():
         if keep:
             dst = os.path.join(VERIF, "selftest", "preserving")
             os.makedirs(dst, exist_ok=True)
-            shutil.copy(patch, os.path.join(dst, f"ALL__{owner}-{rk}.diff"))
+            shutil.copy(patch, os.path.join(dst, f"ALL__{tag}{owner}-{rk}.diff"))
             notes = os.path.join(os.path.dirname(patch), "notes.md")
             if os.path.exists(notes):
-                shutil.copy(notes, os.path.join(dst, f"ALL__{owner}-{rk}.notes.md"))
+                shutil.copy(notes, os.path.join(dst, f"ALL__{tag}{owner}-{rk}.notes.md"))
     print(f"{alarms} variant(s) raised an alarm or analysis error out of {sum(1 for r in results if r[2] == 'ok')} confirmed")
 
 
